@@ -3,6 +3,7 @@ from ..core import rule
 from ..terms import drop_lv
 from .common import *
 from .removes import roles
+from .loops import loops_of, loop_of_block, item_filter, keep_table
 
 RR_TYPES = [('orswot', ORSWOT, set()), ('map', MAP, {'V'}), ('mvreg', MVREG, set())]
 
@@ -68,6 +69,14 @@ def _rr_calls(facts, body):
             pp = param_path(c.args[0].val)
             if pp and pp[0] == 1 and pp[1]:
                 out.append(((pp[1][0], tuple(pp[1][1:])), bb, body, it, {}))
+        # loop form: reset_remove(<part of the item of a loop over a field of self>, argument clock)
+        if call_name(c.term) == 'reset_remove' and len(c.args) == 2 and versionless(c.args[1].val) == ('param', 2):
+            ev = elem_value_of(c.args[0].val)
+            lp = loop_of_block(it, bb)
+            if ev and lp is not None and param_path(ev[0]) and param_path(ev[0])[0] == 1 and ev[1] == '*' and lp.whole_over(1):
+                rcx = Reach(facts, body, Evaluator(facts))
+                if lp.must(rcx, [bb]) and lp.always_entered(rcx):
+                    out.append(((param_path(ev[0])[1][0], (ev[2],) + tuple(ev[3])), bb, body, it, {'loop': True}))
         for clo, m in closure_bindings(c.term):
             cb = facts.by_uid.get(clo[1])
             if cb is None:
@@ -102,7 +111,7 @@ def rr_cover(ctx):
         have = {}
         for d, bb, b, it, m in calls:
             rc = Reach(facts, b, Evaluator(facts))
-            if rc.must_pass([bb]):
+            if m.get('loop') or rc.must_pass([bb]):
                 have[d] = (bb, b, it)
         missing = sorted(want - set(have))
         effs = effects(facts, body)
@@ -128,6 +137,7 @@ def rr_cover(ctx):
 def rr_prune(ctx):
     """In reset_remove: an element / pending remove / register value is dropped exactly when its reset clock is empty."""
     facts = ctx.facts
+    done_fields = set()
     for inst, adt, params in RR_TYPES:
         body = ctx.method(adt, 'ResetRemove', 'reset_remove')
         r = roles(facts, adt) if adt != MVREG else {'entries': None, 'deferred': None, 'clock': None}
@@ -185,6 +195,44 @@ def rr_prune(ctx):
                         errs.append('an element with surviving dots is dropped')
                 ctx.check(not errs, name, cb, 'dropped exactly when the reset clock is empty', errs[0] if errs else '', line=cb.line,
                           details={'is_empty -> (drop may, keep may)': {str(k): v for k, v in res.items()}}, props=props)
+                done_fields.add((inst, field))
+        # ---- loop form (explicit loop over the field, or an adaptor chain rewritten into one by the 's' view)
+        a = facts.adts[adt]
+        for fdef in a['variants'][0]['fields']:
+            field = fdef['name']
+            if (inst, field) in done_fields or not clock_positions(facts, fdef['ty'], params) or fdef['ty'].get('path') == VCLOCK:
+                continue
+            for lp in loops_of(it):
+                if not lp.whole_over(1, (field,)):
+                    continue
+                flt = item_filter(facts, it, lp, (field,))
+                resets = [(bb, c2) for bb, c2 in it.calls.items() if bb in lp.blocks and is_call(c2.term, 'reset_remove', self_adt='VClock')
+                          and elem_value_of(c2.args[0].val) and param_path(elem_value_of(c2.args[0].val)[0]) == (1, (field,))]
+                if flt is None or not resets:
+                    continue
+                name = '%s/%s' % (inst, field)
+                props = ['C18', 'C20'] + (['C04'] if inst == 'orswot' else []) + (['C05'] if inst == 'map' else [])
+                tgt_id = versionless(resets[0][1].args[0].val)
+
+                def atom(t, tgt_id=tgt_id):
+                    if is_call(t, 'is_empty', self_adt='VClock') and t[2] and versionless(t[2][0]) == tgt_id:
+                        if any(st[0] == 'post' for st in subterms(drop_lv(t[2][0]))):
+                            return 'empty'
+                        return 'empty_pre'
+                    return None
+                tab, hits = keep_table(facts, body, lp, flt[0], flt[1], lambda o: Evaluator(facts, bool_atom=atom, assumption={'empty': o}), (True, False))
+                errs = []
+                if 'empty' not in hits:
+                    errs.append('the emptiness of the reset clock is not tested (after the reset)')
+                else:
+                    if tab[True][0]:
+                        errs.append('an element whose clock became empty is kept')
+                    if not tab[False][1]:
+                        errs.append('an element with surviving dots is dropped')
+                ctx.check(not errs, name, body, 'dropped exactly when the reset clock is empty (loop form)', errs[0] if errs else '',
+                          line=resets[0][1].line, details={'is_empty -> (keep may, keep must)': {str(k): v for k, v in tab.items()}}, props=props)
+                done_fields.add((inst, field))
+                break
 
 
 # ---------------------------------------------------------------- serde
